@@ -136,6 +136,19 @@ def run(ctx, mode):
     found = corr_runs(ctx, mode, n, nfull, seeds)
     ctx.oblige(f'T-corr {mode}: real gadgets (test engine, R1CS with honest and adversarial hints, full circuit) = proved batch specification',
                not found, '' if not found else json.dumps(found[0][1][0][1:]))
+    # the service path named by the property ("Prove* error / Verify* result"): real Setup, Prove and
+    # Verify on valid and mutated batches, at a small tree and at the deepest tree both modes support
+    if not found:
+        common.go_build(['corrprove'])
+        word = 'insertion' if mode == 'ins' else 'deletion'
+        for pargs in ([['-seed', ctx.seed, '-n', 6, '-depth', 31, '-batch', 1], ['-seed', ctx.seed, '-n', 8, '-depth', 2, '-batch', 2]]
+                      + ([['-seed', ctx.seed + 1, '-n', 60, '-depth', 31, '-batch', 2], ['-seed', ctx.seed + 2, '-n', 60, '-depth', 5, '-batch', 3]] if ctx.thorough else [])):
+            n_, pm, _ = common.corr(ctx, 'prove-verify', 'corrprove', pargs, ['corr', 'prove'], timeout=7200)
+            pm = [m for m in pm if m[1].startswith('prove\t' + word) or m[1].startswith('verify')]
+            ctx.oblige(f'T-corr service path {pargs}: real Setup/Prove/Verify = model', not pm, '' if not pm else str(pm[0][1:])[:300])
+            if pm:
+                from . import service
+                service.report(ctx, 'prove', 'corrprove', pargs, ['corr', 'prove'], pm, 'prover/verifier')
     if not found and tmism:
         # violation search: the structural tie broke; look for a behavioural difference
         found = corr_runs(ctx, mode, 3000, 800, [ctx.seed + 7, ctx.seed + 8, ctx.seed + 9])
@@ -157,6 +170,9 @@ def run(ctx, mode):
 def replay(ctx, data):
     common.go_build(['trace', 'corrmerkle'])
     common.lake_build(['driver'])
+    if data.get('go_cmd') == 'corrprove':
+        from . import service
+        return service.replay(ctx, data, ['corrprove'])
     if data.get('kind') == 'corr':
         n, mism, _ = common.corr(ctx, 'replay', data['go_cmd'], data['go_args'], data['driver_args'])
         hit = [m for m in mism if m[0] == data['index']]
